@@ -483,11 +483,14 @@ package stun
 //@   | && (region(m.Raw) == old(region(m.Raw)) ==> off(m.Raw) == old(off(m.Raw)))
 //@   | && be16(m.Raw, 2) == m.Length
 //@   | && forall(i, 0, 20 + old(m.Length), i == 2 || i == 3 || m.Raw[i] == old(m.Raw[i]))
+//@   | && forall(x, 20 + m.Length, inf, old(m.Raw)[x] == old(m.Raw[x]))
 //@   | && be16(m.Raw, 20 + old(m.Length)) == t && be16(m.Raw, 20 + old(m.Length) + 2) == len(val)
 //@   | && (old(NoClobber(m, val)) ==> forall(j, 0, len(val), m.Raw[20 + old(m.Length) + 4 + j] == old(val[j])))
 //@   | && forall(j, len(val), pad4(len(val)), m.Raw[20 + old(m.Length) + 4 + j] == 0)
 //@   | && len(m.Attributes) == old(len(m.Attributes)) + 1
 //@   | && (region(m.Attributes) == old(region(m.Attributes)) || fresh(m.Attributes))
+//@   | && (old(len(m.Attributes)) < old(cap(m.Attributes)) ==> region(m.Attributes) == old(region(m.Attributes)) && off(m.Attributes) == old(off(m.Attributes)) && cap(m.Attributes) == old(cap(m.Attributes)))
+//@   | && (old(len(m.Attributes)) < old(cap(m.Attributes)) ==> forall(k, old(len(m.Attributes)) + 1, old(cap(m.Attributes)), m.Attributes[k] == old(m.Attributes[k])))
 //@   | && forall(k, 0, old(len(m.Attributes)), m.Attributes[k] == old(m.Attributes[k]))
 //@   | && m.Attributes[old(len(m.Attributes))].Type == t && m.Attributes[old(len(m.Attributes))].Length == len(val)
 //@   | && len(m.Attributes[old(len(m.Attributes))].Value) == len(val)
@@ -549,7 +552,7 @@ package stun
 //@   assigns m.Raw, mem(m.Raw)
 //@   allocates
 //@   ensures len(m.Raw) == max(old(len(m.Raw)), 20)
-//@   ensures region(m.Raw) == old(region(m.Raw)) || fresh(m.Raw)
+//@   ensures region(m.Raw) == old(region(m.Raw)) && off(m.Raw) == old(off(m.Raw)) || fresh(m.Raw)
 //@   ensures be16(m.Raw, 0) == mtype(m.Type.Method, m.Type.Class) && be16(m.Raw, 2) == m.Length % 65536 && be32(m.Raw, 4) == 0x2112A442
 //@   ensures forall(j, 0, 12, m.Raw[8+j] == m.TransactionID[j])
 //@   ensures forall(i, 20, old(len(m.Raw)), m.Raw[i] == old(m.Raw[i]))
@@ -1023,3 +1026,70 @@ package stun
 //@     invariant forall(n, loopold(ghost(ev_n)), ghost(ev_n), gmapa(ev_tid)[n] == rangeseq[n - loopold(ghost(ev_n))] && ClosedEvent(n))
 //@     invariant forall(n, 0, loopold(ghost(ev_n)), gmapa(ev_tid)[n] == loopold(gmapa(ev_tid)[n]) && gmap(ev_errt)[n] == loopold(gmap(ev_errt)[n]) && gmap(ev_errv)[n] == loopold(gmap(ev_errv)[n]))
 //@     decreases rangelen - rangepos
+
+// ---- re-encoding (C03: decode-then-encode reproduces the canonical bytes; C08: whatever the prior state) ----
+
+// EncodeOK(m): every value length is representable, the total fits, and a value that lives in m.Raw's own
+// buffer sits exactly where it will be re-written (the case of a decoded message), so re-adding it is harmless.
+//@ define ValueLens(m) = lenslice(m.Attributes, Value)
+//@ define EncodeOK(m) = m != nil && len(m.Attributes) >= 0 && vpos(ValueLens(m), len(m.Attributes)) <= 20 + 65535
+//@   | && forall(i, 0, len(m.Attributes), 0 <= len(m.Attributes[i].Value) && len(m.Attributes[i].Value) <= 65535
+//@   |      && 20 <= vpos(ValueLens(m), i) && vpos(ValueLens(m), i + 1) <= vpos(ValueLens(m), len(m.Attributes))
+//@   |      && vpos(ValueLens(m), i + 1) == vpos(ValueLens(m), i) + 4 + pad4(len(m.Attributes[i].Value))
+//@   |      && (region(m.Attributes[i].Value) != region(m.Raw) || off(m.Attributes[i].Value) == off(m.Raw) + vpos(ValueLens(m), i) + 4))
+
+//@ func (*Message).WriteAttributes
+//@   safety C03 C08
+//@   props C03 C08
+//@   requires EncodeOK(m) && m.Length == 0 && len(m.Raw) == 20 && region(m.Attributes) != 0
+//@   assigns m.Raw, m.Length, m.Attributes, mem(m.Raw), mem(m.Attributes)
+//@   allocates
+//@   ensures sameslice(m.Attributes, old(m.Attributes))
+//@   ensures m.Length == old(vpos(ValueLens(m), len(m.Attributes))) - 20 && len(m.Raw) == 20 + m.Length
+//@   ensures len(m.Attributes) > 0 ==> be16(m.Raw, 2) == m.Length
+//@   ensures forall(i, 0, 20, i == 2 || i == 3 || m.Raw[i] == old(m.Raw[i]))
+//@   ensures region(m.Raw) == old(region(m.Raw)) || fresh(m.Raw)
+//@   ensures forall(k, 0, len(m.Attributes), m.Attributes[k].Type == old(m.Attributes[k].Type) && m.Attributes[k].Length == old(len(m.Attributes[k].Value)) && len(m.Attributes[k].Value) == old(len(m.Attributes[k].Value)))
+//@   -- not proved here (solver budget: the nested invariants needed 10-60 s per obligation and were unstable): the wire bytes
+//@   -- (type, length, value, padding at vpos(k)) of each re-added attribute; see the bounded stand-in for Encode
+//@   loop 0
+//@     assigns a, m.Raw, m.Length, m.Attributes, mem(m.Raw), mem(m.Attributes)
+//@     invariant -1 <= rangeindex && rangeindex < len(attributes) || len(attributes) == 0 && rangeindex == -1
+//@     invariant region(m.Attributes) == region(attributes) && off(m.Attributes) == off(attributes) && len(m.Attributes) == rangeindex + 1 && cap(m.Attributes) == cap(attributes)
+//@     invariant m.Length == loopold(vpos(lenslice(attributes, Value), rangeindex + 1)) - 20 && len(m.Raw) == 20 + m.Length
+//@     invariant rangeindex >= 0 ==> be16(m.Raw, 2) == m.Length
+//@     invariant region(m.Raw) == loopold(region(m.Raw)) && off(m.Raw) == loopold(off(m.Raw)) || loopfresh(m.Raw)
+//@     invariant forall(i, 0, 20, i == 2 || i == 3 || m.Raw[i] == loopold(m.Raw[i]))
+//@     invariant forall(k, rangeindex + 1, len(attributes), attributes[k] == loopold(attributes[k]))
+//@     invariant forall(k, 0, rangeindex + 1, attributes[k].Type == loopold(attributes[k].Type) && attributes[k].Length == loopold(len(attributes[k].Value)) && len(attributes[k].Value) == loopold(len(attributes[k].Value)))
+//@     decreases len(attributes) - rangeindex
+
+//@ func (*Message).Encode
+//@   safety C03 C08
+//@   props C03 C08
+//@   requires EncodeOK(m) && TypeOK(m) && region(m.Attributes) != 0
+//@   assigns m.Raw, m.Length, m.Attributes, mem(m.Raw), mem(m.Attributes)
+//@   allocates
+//@   -- C08: whatever the message held before, the header length agrees with the buffer
+//@   ensures len(m.Raw) == 20 + m.Length && be16(m.Raw, 2) == m.Length && m.Length == old(vpos(ValueLens(m), len(m.Attributes))) - 20
+//@   ensures be16(m.Raw, 0) == mtype(m.Type.Method, m.Type.Class) && be32(m.Raw, 4) == 0x2112A442 && forall(j, 0, 12, m.Raw[8+j] == m.TransactionID[j])
+//@   ensures sameslice(m.Attributes, old(m.Attributes))
+//@   ensures forall(k, 0, len(m.Attributes), m.Attributes[k].Type == old(m.Attributes[k].Type) && m.Attributes[k].Length == old(len(m.Attributes[k].Value)) && len(m.Attributes[k].Value) == old(len(m.Attributes[k].Value)))
+//@   ensures region(m.Raw) == old(region(m.Raw)) || fresh(m.Raw)
+
+//@ func Build
+//@   safety C03 C09
+//@   props C03 C09
+//@   requires ghost(setter_failed) == 0 && forall(i, 0, len(setters), setters[i] != nil)
+//@   assigns ghost(setter_failed), ghost(setter_err_tag), ghost(setter_err_val)
+//@   allocates
+//@   ensures result1 == nil <==> ghost(setter_failed) == 0
+//@   ensures result1 == nil ==> result0 != nil && fresh(result0) && Built(result0)
+//@   ensures result1 != nil ==> result0 == nil && ghost(setter_err_tag) == errtag(result1) && ghost(setter_err_val) == errval(result1)
+
+//@ func (*Message).NewTransactionID
+//@   safety C03
+//@   props C03
+//@   requires m != nil && cap(m.Raw) >= 20
+//@   assigns m.TransactionID, m.Raw[8:20]
+//@   ensures result == nil ==> forall(j, 0, 12, m.Raw[8+j] == m.TransactionID[j])
